@@ -94,6 +94,8 @@ namespace plan
       op.name = "pred";
       op.a = {static_cast<long>(1 + r.below(2)), static_cast<long>(r.below(3))};
     }
+    else if (name == "cpred")
+      op.a = {static_cast<long>(r.below(4)), static_cast<long>(r.chance(1, 4) ? 0 : 1 + r.below(2)), static_cast<long>(r.below(2))};
     else if (name == "r_rel")
     {
       op.a.push_back(static_cast<long>(r.below(8)));
@@ -121,6 +123,20 @@ namespace plan
       op.a = {static_cast<long>(r.below(2)), static_cast<long>(r.below(8)), static_cast<long>(r.below(5)), static_cast<long>(r.below(16)), static_cast<long>(r.below(6))};
     else if (name == "horizon")
       op.a = {static_cast<long>(r.below(12))};
+    else if (name == "r_use")
+      op.a = {static_cast<long>(r.below(4)), static_cast<long>(r.below(2)), static_cast<long>(r.below(6)), static_cast<long>(r.below(2)), static_cast<long>(r.below(3))};
+    else if (name == "disj")
+    {
+      for (int br = 0; br < 2; ++br)
+      {
+        g_rel(r, op, K);
+        op.a.push_back(static_cast<long>(r.below(32)));
+        op.a.push_back(static_cast<long>(r.below(8)));
+        op.a.push_back(static_cast<long>(r.below(6)));
+        op.a.push_back(static_cast<long>(r.below(3)));
+        op.a.push_back(static_cast<long>(r.below(4)));
+      }
+    }
     return op;
   }
 
@@ -222,6 +238,15 @@ namespace plan
         for (int i = 0, n = static_cast<int>(sw.range(1, 2)); i < n; ++i)
           ops.push_back(g_op(g, "enumt"));
     }
+    bool class_preds = false;
+    if ((prop == "C06" && sw.chance(1, 2)) || (prop != "C06" && (causal || objects) && sw.chance(1, 6)))
+    { // predicates (mostly temporal) declared inside a plain class, with an instance to put facts and goals on
+      class_preds = true;
+      if (!objects)
+        ops.push_back(g_op(g, "class"));
+      for (int i = 0, n = static_cast<int>(sw.range(1, 2)); i < n; ++i)
+        ops.push_back(g_op(g, "cpred"));
+    }
     if (sv)
       for (int i = 0, n = static_cast<int>(sw.range(1, 2)); i < n; ++i)
         ops.push_back(g_op(g, "svclass"));
@@ -230,6 +255,11 @@ namespace plan
       int np = static_cast<int>(sw.range(1, 4));
       for (int i = 0; i < np; ++i)
         ops.push_back(g_op(g, prop == "C19" || (prop == "C06" && g.chance(2, 3)) ? "tpred" : "pred"));
+    }
+    if (rr && !causal)
+    { // resources used from inside rules: one or two temporal predicates whose rule places a Use fact
+      for (int i = 0, n = static_cast<int>(sw.range(1, 2)); i < n; ++i)
+        ops.push_back(g_op(g, "tpred"));
     }
     if (causal || sv)
       for (int i = 0, n = static_cast<int>(sw.range(1, 6)); i < n; ++i)
@@ -246,13 +276,25 @@ namespace plan
     if (sv)
       w.add("svinst", 5), w.add("goal", 8), w.add("fact", 6), w.add("horizon", 2), w.add("ovar", 2);
     if (rr)
-      w.add("rr", 5), w.add("use", 14), w.add("horizon", 2);
+      w.add("rr", 5), w.add("use", 14), w.add("horizon", 2), w.add("disj", 6), w.add("goal", 4);
+    else if (logic)
+      w.add("disj", 3);
     w.add("cut", sw.chance(1, 2) ? 3 : 0);
     int n = static_cast<int>(sw.range(4, causal || sv || rr ? 14 : 18));
+    if (class_preds)
+    {
+      for (int i = 0; i < 3; ++i)
+        ops.push_back(g_op(g, "inst"));
+      w.add("goal", 8), w.add("fact", 10), w.add("inst", 3);
+    }
     if (sv)
       ops.push_back(g_op(g, "svinst"));
     if (rr)
+    {
       ops.push_back(g_op(g, "rr"));
+      for (int i = 0, k = static_cast<int>(sw.range(0, 3)); i < k; ++i)
+        ops.push_back(g_op(g, "r_use"));
+    }
     for (int i = 0; i < n; ++i)
       ops.push_back(g_op(g, w.pick(g)));
     return ops;
